@@ -31,8 +31,12 @@ def t_signature(c, msg):
     if sc == "during":
         return SIG_DURING
     o = c.get("obs") or {}
-    if c.get("mode") == "callback" and o.get("closer_local") == 0 and o.get("closer_remote") == 0 and o.get("closer_state") == 1:
-        # fingerprint of the half-close branch of Close(): the closing end ends closed without any close callback
+    if c.get("mode") == "callback" and (
+            (o.get("closer_local") == 0 and o.get("closer_remote") == 0 and o.get("closer_state") == 1) or
+            (o.get("peer_local") == 0 and o.get("peer_remote") == 0 and o.get("peer_state") == 1)):
+        # fingerprint of the half-close branch of Close(): an end is closed without having received any close
+        # callback.  By the accounting invariant (InvA.b_acc: nlocal + nremote + pending + lhalf = 1 once the
+        # state has left opened) this happens at quiescence exactly when Close() took its silent half-close branch.
         return SIG_DURING
     return "C10:" + re.sub(r"\d+", "#", msg)[:70]
 
@@ -94,6 +98,10 @@ def check(run):
         run.add_corr_break("T: " + err)
         tcases = []
     scen = {}
+    skipped = [c for c in tcases if c.get("skipped")]
+    if tcases and len(skipped) * 4 > len(tcases):
+        run.add_corr_break("T: %d of %d scenarios could not be set up (%s)" % (len(skipped), len(tcases), skipped[0]["skipped"]))
+    tcases = [c for c in tcases if not c.get("skipped")]
     for c in tcases:
         for m in c.get("oracle") or []:
             run.add_oracle_failure(t_signature(c, m), m, c)
@@ -102,7 +110,7 @@ def check(run):
     distinct = {json.dumps([c["inb"], c["ncl"], c.get("script"), c["final"], sorted(set(c.get("feat") or []))]) for c in scases if c.get("feat")}
     distinct |= {json.dumps([c["mode"], c["scenario"], c["pre"], c["peer_pre"]]) for c in tcases}
     run.coverage.update({
-        "evaluations": len(scases) + len(tcases), "s_cases": len(scases), "s_compared_with_model": len(cmp_cases), "t_cases": len(tcases),
+        "evaluations": len(scases) + len(tcases), "s_cases": len(scases), "s_compared_with_model": len(cmp_cases), "t_cases": len(tcases), "t_skipped_setup": len(skipped),
         "distinct_nontrivial": len(distinct),
         "rule": "S case = (inbound events incl. peer close, Close() threads, OnData script incl. Close inside OnData, schedule) on the real instrumented stream.go; "
                 "T case = (mode, who closes / both at once / repeated / inside OnData / during OnData / data in flight to a closed stream, traffic before the close) on a real session pair; "
